@@ -80,6 +80,11 @@ type c03Case struct {
 	Treasury  string `json:"treasury,omitempty"`
 	GivenBase string `json:"bonus_base,omitempty"`
 	AppIdx    int    `json:"app_idx,omitempty"` // kind "app": index of the application history to re-run
+	// amm params of the weight-breaking fee (raw LegacyDec integers); "" = the value of c03Params()
+	WbMult    string `json:"wb_mult,omitempty"`
+	WbExp     string `json:"wb_exp,omitempty"`
+	WbPortion string `json:"wb_portion,omitempty"`
+	WbThr     string `json:"wb_thr,omitempty"`
 
 	params *ammtypes.Params // amm params of the running application (app driver); nil = c03Params()
 }
@@ -88,7 +93,20 @@ func (c c03Case) ammParams() ammtypes.Params {
 	if c.params != nil {
 		return *c.params
 	}
-	return c03Params()
+	p := c03Params()
+	if c.WbMult != "" {
+		p.WeightBreakingFeeMultiplier = c03DecS(c.WbMult)
+	}
+	if c.WbExp != "" {
+		p.WeightBreakingFeeExponent = c03DecS(c.WbExp)
+	}
+	if c.WbPortion != "" {
+		p.WeightBreakingFeePortion = c03DecS(c.WbPortion)
+	}
+	if c.WbThr != "" {
+		p.ThresholdWeightDifference = c03DecS(c.WbThr)
+	}
+	return p
 }
 
 func c03BigS(s string) *big.Int {
@@ -978,6 +996,7 @@ func TestC03(t *testing.T) {
 	// 3. oracle pools: oracle-weighted CalcOut/CalcIn exactly; SwapOut/SwapIn final value formula with the
 	//    weight-breaking fee taken from the implementation; slippage kernels; value predicate
 	ro := NewRng(uint64(seed), 303)
+	rw := NewRng(uint64(seed), 306) // amm params of the weight-breaking fee (own stream: the cases of ro stay what they were)
 	nOr := 130 * scale
 	for i := 0; i < 2*nOr; i++ {
 		givenOut := i >= nOr
@@ -986,6 +1005,7 @@ func TestC03(t *testing.T) {
 			kind = "oracle_in"
 		}
 		c := c03GenOracle(ro, kind)
+		c03WbfGenParams(rw, &c)
 		// (a) the balancer calculation on the oracle pool (oracle-normalised weights from the snapshot)
 		var rb c03Res
 		if givenOut {
@@ -1000,6 +1020,13 @@ func TestC03(t *testing.T) {
 		o := c.swapOracle(givenOut)
 		col.Op(kind, o.R.kind(), c03BigS(c.Amt))
 		col.Distinct(fmt.Sprintf("%s:%+v", kind, c), o.R.Code == 0)
+		// (c) the whole function with the weight-breaking fee COMPUTED by the model (Models/WeightFee.v), failures included
+		{
+			cost := c.wbfCost(givenOut)
+			total += cost
+			emit(map[bool]int{false: 12, true: 13}[givenOut], c.wbfArgs(c03BigS(c.RatioOut)), c03WbfRes(o), cost)
+			c03WbfImplCheck(col, idx-1, c, o)
+		}
 		if o.R.Code != 0 {
 			continue
 		}
@@ -1088,6 +1115,8 @@ func TestC03(t *testing.T) {
 		col.Op("cp_"+kind+"_intratio", r.kind(), c03BigS(c.Amt))
 		col.Distinct(fmt.Sprintf("%s:%+v", kind, c), r.Code == 0)
 	}
+	// 3c. the weight-breaking fee kernels called directly (c03_wbf_test.go); constant cost each
+	c03WbfDirect(seed, col, scale, func(kind int, args []string, r c03Res, cost float64) { total += cost; emit(kind, args, r, cost) })
 	// 4. the full application
 	nApp := 24
 	if tier() == "thorough" {
@@ -1110,8 +1139,8 @@ func TestC03(t *testing.T) {
 	col.Finish(t, idx, c03Header, c03Footer, 200)
 }
 
-const c03Header = "From Coq Require Import ZArith List.\nFrom Elys Require Import Base.Res Base.Zdec Models.AmmSwap Run.AmmSwapRun.\nImport ListNotations.\nOpen Scope Z_scope.\n"
-const c03Footer = "Definition M := Eval vm_compute in mismatches cases.\nPrint M.\n"
+const c03Header = "From Coq Require Import ZArith List.\nFrom Elys Require Import Base.Res Base.Zdec Models.AmmSwap Run.AmmSwapRun Run.WeightFeeRun.\nImport ListNotations.\nOpen Scope Z_scope.\n"
+const c03Footer = "Definition M := Eval vm_compute in mismatches_wf cases.\nPrint M.\n"
 
 // round trip A->B->A and split trade on the implementation (zero fee, equal weights), against the bounds of
 // C03_round_trip_no_gain and C03_split_no_gain; a gain of more than one base unit inside those bounds is the
